@@ -24,9 +24,7 @@ use std::fmt::Debug;
 use crate::ktypes::k_of;
 use crate::with_k;
 
-pub const KTYPES: [&str; 11] = [
-    "Kmer4", "Kmer5", "Kmer6", "Kmer8", "Kmer12", "Kmer16", "Kmer20", "KmerK31", "Kmer32", "Kmer48", "Kmer64",
-];
+pub const KTYPES: [&str; 17] = ["Kmer4", "Kmer5", "Kmer6", "Kmer8", "Kmer10", "Kmer12", "Kmer14", "Kmer15", "Kmer16", "Kmer20", "Kmer24", "Kmer30", "KmerK31", "Kmer32", "Kmer40", "Kmer48", "Kmer64"];
 
 #[derive(Clone, Debug, Serialize, Deserialize, PartialEq)]
 pub enum Summ {
@@ -416,7 +414,7 @@ pub fn size_of_pair(ktype: &str) -> usize {
     fn sz<K: Kmer>() -> usize {
         std::mem::size_of::<(K, u32)>()
     }
-    with_k!(ktype, [Kmer4, Kmer5, Kmer6, Kmer8, Kmer12, Kmer16, Kmer20, KmerK31, Kmer32, Kmer48, Kmer64], sz, ())
+    with_k!(ktype, [Kmer4, Kmer5, Kmer6, Kmer8, Kmer10, Kmer12, Kmer14, Kmer15, Kmer16, Kmer20, Kmer24, Kmer30, KmerK31, Kmer32, Kmer40, Kmer48, Kmer64], sz, ())
 }
 
 /// Pick (memory_size, unit) so that `kmer_mem / (memory_size*unit) + 1` is about `slices`.
@@ -535,7 +533,7 @@ impl Harness for C05 {
     fn run(&self, c: &Case, rec: &mut Rec) -> Result<(), Violation> {
         with_k!(
             c.ktype.as_str(),
-            [Kmer4, Kmer5, Kmer6, Kmer8, Kmer12, Kmer16, Kmer20, KmerK31, Kmer32, Kmer48, Kmer64],
+            [Kmer4, Kmer5, Kmer6, Kmer8, Kmer10, Kmer12, Kmer14, Kmer15, Kmer16, Kmer20, Kmer24, Kmer30, KmerK31, Kmer32, Kmer40, Kmer48, Kmer64],
             run_k,
             (c, rec)
         )
